@@ -712,6 +712,8 @@ def build_scenario(kind, v):
         if kind == "iter":
             import e2_metric
             return e2_metric.iter_scenario(v)
+        if kind == "cosine_def":
+            return "cosine_definition\n"
         if kind == "monotone":
             import e2_search
             return e2_search.monotone_scenario(v)
